@@ -31,6 +31,32 @@ impl Ctx {
         // variant 2: the tuning knobs are set AFTER the resource is in the store (with_config on the
         //            populated store): the index was built with the default interval, answers must not change
         let variant = if req.list().len() > 5 { req.nth(5).int() } else { 0 };
+        if variant == 3 {
+            // the text comes from a plain-text file and the resource is asked directly, outside any store
+            let dir = std::env::temp_dir().join(format!("verif-c12-{}", std::process::id()));
+            let _ = std::fs::create_dir_all(&dir);
+            let path = dir.join("standalone.txt");
+            std::fs::write(&path, text.as_bytes()).unwrap();
+            let r = guard(|| TextResource::from_file(path.to_string_lossy().as_ref(), cfg.clone()));
+            let _ = std::fs::remove_file(&path);
+            let _ = std::fs::remove_dir(&dir);
+            let n = text.chars().count();
+            let nb = text.len();
+            let mut outs = Vec::new();
+            match r {
+                Some(Ok(res)) => {
+                    for p in 0..n + 3 {
+                        outs.push(res_sx(guard(|| res.utf8byte(p))));
+                    }
+                    for b in 0..nb + 3 {
+                        outs.push(res_sx(guard(|| res.utf8byte_to_charpos(b))));
+                    }
+                }
+                _ => outs.push(l(vec![a(2)])),
+            }
+            let input = l(vec![req.nth(0).clone(), req.nth(2).clone(), l(vec![]), l(vec![])]);
+            return (input, outs, text.len() > n);
+        }
         let replaced = variant == 1;
         let mut store = if variant == 2 {
             AnnotationStore::default()
@@ -172,7 +198,7 @@ pub fn generate(out: &mut Out, tier: &str, seed: u64) {
                         text_sx(&text),
                         if with_anns { l(anns.clone()) } else { l(vec![]) },
                         l(sels.clone()),
-                        a(((ti + shrink as usize) % 3) as i64),
+                        a(((ti + shrink as usize) % 4) as i64),
                     ]);
                     // a panic while the store is built (none in the model) shows as a case whose
                     // outputs are missing, with this request as the failing input
@@ -187,6 +213,6 @@ pub fn generate(out: &mut Out, tier: &str, seed: u64) {
     }
 }
 
-pub const RULE: &str = "texts of length 0..=12 (thorough 16) over an alphabet with 1-, 2-, 3- and 4-byte characters; every codepoint position 0..=len+2 and every byte offset 0..=bytes+2 on the resource, and the relative conversions + text on sub-selections (3 random ones per text; thorough: a third of all sub-ranges), each under milestone_interval in {0,1,2,3,7,100} x shrink_to_fit on/off x before/after random annotations populated the position index; the annotated ranges are probed through ResultItem<TextSelection> as well; in a third of the cases the resource had another (37-codepoint, mixed) text first and got this one by a second with_string(); in another third the configuration is given to the store after the resource was added (with_config on the populated store). One evaluation = one conversion. Non-trivial = text contains a multi-byte character; distinct = distinct (interval, text, annotations, selections) inputs.";
+pub const RULE: &str = "texts of length 0..=12 (thorough 16) over an alphabet with 1-, 2-, 3- and 4-byte characters; every codepoint position 0..=len+2 and every byte offset 0..=bytes+2 on the resource, and the relative conversions + text on sub-selections (3 random ones per text; thorough: a third of all sub-ranges), each under milestone_interval in {0,1,2,3,7,100} x shrink_to_fit on/off x before/after random annotations populated the position index; the annotated ranges are probed through ResultItem<TextSelection> as well; in a quarter of the cases the resource had another (37-codepoint, mixed) text first and got this one by a second with_string(); in another quarter the configuration is given to the store after the resource was added (with_config on the populated store); in a quarter the text is read from a plain-text file by TextResource::from_file and the resource is asked on its own, outside any store. One evaluation = one conversion. Non-trivial = text contains a multi-byte character; distinct = distinct (interval, text, annotations, selections) inputs.";
 
 pub const EXHAUSTIVE: bool = false;
